@@ -1007,10 +1007,12 @@ func dumpPhase(r *rand.Rand, path string, tot map[string]int) {
 type trial struct {
 	X    int    `json:"x"`
 	Tail string `json:"tail"`
+	Y    int    `json:"y"` // hole trials: bytes [X,Y) are damaged, the rest of the image is intact
 }
 
 type trialRes struct {
 	X      int    `json:"x"`
+	Y      int    `json:"y"`
 	Tail   string `json:"tail"`
 	Open   string `json:"open"`   // refused | opened
 	Check  string `json:"check"`  // error | ok
@@ -1079,6 +1081,26 @@ func crashPhase(r *rand.Rand, img []byte, sn, ntrials int, tot map[string]int) {
 	for _, x := range xs {
 		trials = append(trials, trial{X: x, Tail: tails[r.Intn(len(tails))]})
 	}
+	// (6) pages written out of order: the image with a damaged region [x,y) (zeros, as a
+	//     never-written page reads, or garbage) in front of intact later state records
+	np := len(persistOffsets)
+	for i := 0; np >= 3 && i < 2+ntrials/4; i++ {
+		j := r.Intn(np - 1)                    // states 0..j are before the hole
+		m := j + 1 + r.Intn(min(np-1-j, 5))    // state records m.. are intact after it
+		lo := persistOffsets[j] + sl
+		x := lo + r.Intn(persistOffsets[j+1]-lo+1)
+		if r.Intn(3) == 0 && j > 0 { // the hole starts inside / before state record j
+			x = persistOffsets[j] + r.Intn(sl)
+		}
+		y := persistOffsets[m]
+		if r.Intn(3) == 0 {
+			y -= r.Intn(min(200, y-x) + 1)
+		}
+		if x < 16 || y <= x || y > len(img) {
+			continue
+		}
+		trials = append(trials, trial{X: x, Y: y, Tail: []string{"hole-zeros", "hole-garbage"}[r.Intn(2)]})
+	}
 	// run in child processes; if a child dies the trial in progress is recorded as Died
 	for len(trials) > 0 {
 		lst := filepath.Join(dir, "trials.json")
@@ -1090,6 +1112,9 @@ func crashPhase(r *rand.Rand, img []byte, sn, ntrials int, tot map[string]int) {
 		cmd.Env = append(os.Environ(), "VERIF_CHILD_OUT="+out)
 		cmd.Dir = dir
 		outb, _ := cmd.CombinedOutput()
+		if os.Getenv("VERIF_DEBUG") == "2" {
+			os.Stderr.Write(outb)
+		}
 		done := 0
 		if f, err := os.Open(out); err == nil {
 			sc := bufio.NewScanner(f)
@@ -1099,7 +1124,11 @@ func crashPhase(r *rand.Rand, img []byte, sn, ntrials int, tot map[string]int) {
 				if json.Unmarshal(sc.Bytes(), &tres) != nil {
 					break
 				}
-				tr.Emit(vh.E("Trial", "x", tres.X, "tail", tres.Tail, "open", tres.Open, "check", tres.Check,
+				ev := "Trial"
+				if tres.Y > 0 {
+					ev = "Hole"
+				}
+				tr.Emit(vh.E(ev, "x", tres.X, "y", tres.Y, "tail", tres.Tail, "open", tres.Open, "check", tres.Check,
 					"repair", tres.Repair, "dig", tres.Dig, "agree", tres.Agree, "ck2", tres.Ck2, "reopen", tres.Reopen,
 					"eff", tres.Eff, "marker", tres.Marker))
 				done++
@@ -1110,13 +1139,24 @@ func crashPhase(r *rand.Rand, img []byte, sn, ntrials int, tot map[string]int) {
 		if done < len(trials) {
 			t := trials[done]
 			msg := string(outb)
-			if i := strings.Index(msg, "\n"); i > 0 {
-				msg = msg[:i]
+			if os.Getenv("VERIF_DEBUG") != "" {
+				fmt.Fprintln(os.Stderr, "CHILD DIED:", msg[:min(len(msg), 6000)])
 			}
+			first := ""
+			for _, ln := range strings.Split(msg, "\n") {
+				if first == "" {
+					first = ln
+				}
+				if strings.Contains(ln, "panic") || strings.Contains(ln, "fatal error") || strings.Contains(ln, "signal") || strings.Contains(ln, "core.Fatal") {
+					first = ln
+					break
+				}
+			}
+			msg = first
 			if len(msg) > 100 {
 				msg = msg[:100]
 			}
-			tr.Emit(vh.E("Died", "x", t.X, "tail", t.Tail, "msg", msg))
+			tr.Emit(vh.E("Died", "x", t.X, "y", t.Y, "tail", t.Tail, "msg", msg))
 			tot["child_deaths"]++
 			done++
 		}
@@ -1147,14 +1187,25 @@ func child(imgPath, lst string) {
 		case "zeros":
 			data = append(data, make([]byte, 64)...)
 		case "garbage":
-			g := make([]byte, 64)
+			g := make([]byte, 64+(t.X%3)*(t.X%6000))
 			rand.New(rand.NewSource(int64(t.X))).Read(g)
 			data = append(data, g...)
+		case "hole-zeros":
+			data = append(data, make([]byte, t.Y-t.X)...)
+			data = append(data, img[t.Y:]...)
+		case "hole-garbage":
+			g := make([]byte, t.Y-t.X)
+			rand.New(rand.NewSource(int64(t.X))).Read(g)
+			data = append(data, g...)
+			data = append(data, img[t.Y:]...)
 		case "marker": // the shutdown marker bytes right after the cut (as if only the tail was written)
 			data = append(data, []byte("\x2b\xc1\x85\x63\x8d\x71\x65\x6d")...)
 		}
 		os.WriteFile(path, data, 0o644)
-		res := trialRes{X: t.X, Tail: t.Tail}
+		if os.Getenv("VERIF_DEBUG") != "" {
+			fmt.Println("TRIAL", t.X, t.Y, t.Tail)
+		}
+		res := trialRes{X: t.X, Y: t.Y, Tail: t.Tail}
 		res.Eff = len(data)
 		for res.Eff > 0 && data[res.Eff-1] == 0 {
 			res.Eff--
